@@ -304,6 +304,9 @@ class TradingEnv(gymnasium.Env):
                 "The current episode has ended. To start a new episode use "
                 "TradingEnv.reset()."
             )
+        # The contract clock is shared by all environments of the process:
+        # restore the time of this environment before resolving any contract.
+        AbstractContract.now = self._now
         self._queue_actions.appendleft(action)
         action = self._queue_actions.pop()
         self._process_latent_events()
